@@ -42,7 +42,7 @@ theorem bin_count_and_last_small_eq_model (rows : List Row) (binArea : Int) :
   · rintro b c hc
     have hc' : c = b := hc
     subst hc'
-    simp [OptRel]
+    simp [OptRel, Int.add_comm]
 
 /-- the generated function on a concrete packing: the last bin (2) holds a 1 × 1 item, bins have area 9 -/
 example : bin_count_and_last_small [[1, 1, 0, 0, 2, 2], [2, 2, 0, 0, 1, 1], [3, 1, 2, 0, 3, 3]] 9 = some (9 * 1 + 1) := by
